@@ -1732,7 +1732,11 @@ func (h *fsHandler) compressFileNolock(
 	// goroutine.
 	// It is safe opening such a file, since the file creation
 	// is guarded by file mutex - see getFileLock call.
-	if _, err := os.Stat(compressedFilePath); err == nil {
+	//
+	// A compressed file that is older than the original is stale, as in
+	// openFSFile (which never gets to see the compressed file when
+	// CompressRoot differs from Root): it is re-created and replaced below.
+	if fi, err := os.Stat(compressedFilePath); err == nil && fileInfo.ModTime().Sub(fi.ModTime()) < time.Second {
 		_ = f.Close()
 		return h.newCompressedFSFile(compressedFilePath, fileEncoding)
 	}
